@@ -120,6 +120,14 @@ Theorem C05_src_orphaned_timer_iter : src_downtime_orphaned_timer_iter_recognise
 Proof. exact src_downtime_orphaned_timer_iter_eq. Qed.
 Print Assumptions C05_src_orphaned_timer_iter.
 
+(* TriggerDowntime WITH its recursion into chained downtimes: xs_run (Src/SrcDt.v) closes the recursion of the translated
+   one-call function over the model's downtime store - the child call runs the same translated function on the child's attributes,
+   on fuel - and is the model's trigger_dt, for every store, fuel and non-zero instant *)
+Theorem C05_src_trigger_recursion : src_downtime_trigger_downtime_recognised = true ->
+  forall fuel now paused id t ds, t <> 0 -> xs_run fuel now paused id t ds = trigger_dt fuel now paused id t ds.
+Proof. exact src_trigger_downtime_recursion. Qed.
+Print Assumptions C05_src_trigger_recursion.
+
 Example C05_src_round2_nonvacuous : src_downtime_remove_pre_recognised = true -> src_downtime_start_timer_iter_recognised = true ->
   src_downtime_remove_pre true true true true 1 [7] = (true, [XsThrow]) /\
   src_downtime_remove_pre true true true true 2 [7] = (false, [XsRemoveChild 7; XsRemovalInfo]) /\
